@@ -55,6 +55,10 @@ func drawPlaceholder(r *rand.Rand) (any, string) {
 			return map[string]any{"a-very-long-key-name-for-a-placeholder": 1, "z": []any{}}, "map-very-long-key"
 		}
 	}
+	if r.IntN(6) == 0 {
+		// strings that are YAML syntax when written plain
+		return []string{"- a", "---", "...", "\t", "a: b", "#x", "[", "{", "]", "}", "? x", "| ", "> ", "|", ">", "!tag", "&a", "*a", "@", "`", "%", "'", "\"", " lead", "trail ", "", "~", "on", "yes", "0o17", "1_000", ".inf", ".nan", "2001-12-14", "<<", "=", "a #b", "a: ", "- ", "-", ":", ",", "a,b", "[a]", "{a: b}", "--- x", "a\tb", "é: ü", "\u00a0", "x\u2028y", "\x7f", "\x01"}[r.IntN(52)], "string-yaml-syntax"
+	}
 	switch r.IntN(10) {
 	case 0:
 		return "x", "string-short"
@@ -428,6 +432,15 @@ func c15JSONDirect(c *vkit.Ctx, r *rand.Rand, i int) {
 	}
 	target := d.At(p)
 	ph, phk := drawPlaceholder(r)
+	if r.IntN(10) == 0 {
+		// a string that reads like the value it replaces
+		switch target.Kind {
+		case "num", "bool", "str":
+			ph, phk = target.S, "string-equal-to-text-of-replaced-value"
+		case "null":
+			ph, phk = "", "string-equal-to-text-of-replaced-value"
+		}
+	}
 	spec := mSpec{Kind: pick2(r, "any", "any", "type", "custom"), Path: p, PathS: p.GJSON(), PH: ph, PHKind: phk}
 	m, want, ok := buildJSONMatcher(spec, target)
 	if !ok {
